@@ -159,6 +159,15 @@ def build_unit(u, wdir, extra_defs=()):
     rc, out, err, dt = run(cmd, 120)
     if rc != 0:
         raise ToolError('goto-cc failed for %s:\n%s' % (u['name'], (out + err)[-3000:]))
+    if u.get('pre_unwindset'):
+        # do { } while (0) macros count as loops: unwind them (once, with unwinding assertions) before
+        # loop contracts are applied to an enclosing loop
+        gb0 = os.path.join(wdir, 'u0.gb')
+        rc, out, err, dt = run(['goto-instrument', '--unwindset', ','.join(u['pre_unwindset']), '--unwinding-assertions',
+                                gb, gb0], 120)
+        if rc != 0:
+            raise ToolError('goto-instrument (pre-unwind) failed for %s:\n%s' % (u['name'], (out + err)[-2000:]))
+        gb = gb0
     gi = ['goto-instrument']
     for r in u.get('restrict_fp', []):
         gi += ['--restrict-function-pointer', r]
